@@ -197,4 +197,152 @@ Proof.
 move=> wB fB H H'; rewrite (mul_diag_any_sound wB fB H).
 by rewrite (@mul_sound _ sq lt n _ _ _ _ wB H') //= eqxx.
 Qed.
+Lemma mul_square_diag_pos n m (y : vec F) (x : vec F) (l u : tri F) C : (0 < n)%N -> tn l = n -> size (mrow (tp l) 0) = tm l ->
+  qsm_mul fops (Square x l u) (Diag m y) = Some C -> den n C = den n (Square x l u) *m den n (Diag m y).
+Proof.
+move=> n0 nl wl; rewrite /qsm_mul /deconstruct; cbv beta iota; rewrite nl.
+set rows := mkseq _ n.
+have E k : (k < n)%N -> nth (MkMulRow None [::] [::] None [::] [::] None) rows k = mul_row fops (Some x) (Some l) (Some u) (Some y) None None None None k.
+  by move=> kn; rewrite nth_mkseq.
+rewrite (E 0%N n0) /= /construct /= => -[<-] /=.
+rewrite !mulmxDl; congr (_ + _ + _).
+- rewrite -den_diag_mul /den_diag; congr diag_mx; apply/matrixP => i j.
+  by rewrite !mxE (nth_map (MkMulRow None [::] [::] None [::] [::] None)) ?size_mkseq // E //= nth_vmk.
+- rewrite (@den_sl_at_tm _ _ (tm l)); last by rewrite size_cat addn0; exact: wl.
+  rewrite den_diag_Dm /den_sl_at mulLD; apply: denSL_ext => k kn.
+  + by rewrite /Pk /mrow /= (nth_map (MkMulRow None [::] [::] None [::] [::] None)) ?size_mkseq // E //= /cat2 /= cats0.
+  + rewrite /Qk /mrow /= (nth_map (MkMulRow None [::] [::] None [::] [::] None)) ?size_mkseq // E //= /cat2 /= cats0.
+    by rewrite cv_of_vscale /vget.
+  + by rewrite /Ak /tget /= (nth_map (MkMulRow None [::] [::] None [::] [::] None)) ?size_mkseq // E.
+- rewrite (@den_sl_at_tm _ _ (tm u)); last by rewrite size_cat size_mkseq addn0.
+  rewrite den_diag_Dm -[Dm _ _]Dm_tr -trmx_mul /den_sl_at mulDL; congr (_^T); apply: denSL_ext => k kn.
+  + rewrite /Pk /mrow /= (nth_map (MkMulRow None [::] [::] None [::] [::] None)) ?size_mkseq // E //= /cat2 /= cats0.
+    by rewrite rv_of_vscale /vget.
+  + by rewrite /Qk /mrow /= (nth_map (MkMulRow None [::] [::] None [::] [::] None)) ?size_mkseq // E //= /cat2 /= cats0.
+  + by rewrite /Ak /tget /= (nth_map (MkMulRow None [::] [::] None [::] [::] None)) ?size_mkseq // E.
+Qed.
+Theorem mul_square_diag_sound n m (y : vec F) (x : vec F) (l u : tri F) C : tn l = n -> size (mrow (tp l) 0) = tm l ->
+  qsm_mul fops (Square x l u) (Diag m y) = Some C -> den n C = den n (Square x l u) *m den n (Diag m y).
+Proof.
+case: (posnP n) => [->|n0]; last exact: mul_square_diag_pos.
+by move=> *; apply/matrixP => -[].
+Qed.
+Theorem mul_symm_diag_sound n m (y x : vec F) (l : tri F) C : tn l = n -> size (mrow (tp l) 0) = tm l ->
+  qsm_mul fops (Symm x l) (Diag m y) = Some C -> den n C = den n (Symm x l) *m den n (Diag m y).
+Proof. exact: (@mul_square_diag_sound n m y x l l C). Qed.
+Lemma mul_lower_diag_pos n m (y : vec F) (x : vec F) (l : tri F) C : (0 < n)%N -> tn l = n -> size (mrow (tp l) 0) = tm l ->
+  qsm_mul fops (Lower x l) (Diag m y) = Some C -> den n C = den n (Lower x l) *m den n (Diag m y).
+Proof.
+move=> n0 nl wl; rewrite /qsm_mul /deconstruct; cbv beta iota; rewrite nl.
+set rows := mkseq _ n.
+have E k : (k < n)%N -> nth (MkMulRow None [::] [::] None [::] [::] None) rows k = mul_row fops (Some x) (Some l) None (Some y) None None None None k.
+  by move=> kn; rewrite nth_mkseq.
+rewrite (E 0%N n0) /= /construct /= => -[<-] /=.
+rewrite !mulmxDl; congr (_ + _).
+- rewrite -den_diag_mul /den_diag; congr diag_mx; apply/matrixP => i j.
+  by rewrite !mxE (nth_map (MkMulRow None [::] [::] None [::] [::] None)) ?size_mkseq // E //= nth_vmk.
+- rewrite (@den_sl_at_tm _ _ (tm l)); last by rewrite size_cat addn0; exact: wl.
+  rewrite den_diag_Dm /den_sl_at mulLD; apply: denSL_ext => k kn.
+  + by rewrite /Pk /mrow /= (nth_map (MkMulRow None [::] [::] None [::] [::] None)) ?size_mkseq // E //= /cat2 /= cats0.
+  + rewrite /Qk /mrow /= (nth_map (MkMulRow None [::] [::] None [::] [::] None)) ?size_mkseq // E //= /cat2 /= cats0.
+    by rewrite cv_of_vscale /vget.
+  + by rewrite /Ak /tget /= (nth_map (MkMulRow None [::] [::] None [::] [::] None)) ?size_mkseq // E.
+Qed.
+Theorem mul_lower_diag_sound n m (y : vec F) (x : vec F) (l : tri F) C : tn l = n -> size (mrow (tp l) 0) = tm l ->
+  qsm_mul fops (Lower x l) (Diag m y) = Some C -> den n C = den n (Lower x l) *m den n (Diag m y).
+Proof.
+case: (posnP n) => [->|n0]; last exact: mul_lower_diag_pos.
+by move=> *; apply/matrixP => -[].
+Qed.
+Lemma mul_upper_diag_pos n m (y : vec F) (x : vec F) (u : tri F) C : (0 < n)%N -> tn u = n -> 
+  qsm_mul fops (Upper x u) (Diag m y) = Some C -> den n C = den n (Upper x u) *m den n (Diag m y).
+Proof.
+move=> n0 nl ; rewrite /qsm_mul /deconstruct; cbv beta iota; rewrite nl.
+set rows := mkseq _ n.
+have E k : (k < n)%N -> nth (MkMulRow None [::] [::] None [::] [::] None) rows k = mul_row fops (Some x) None (Some u) (Some y) None None None None k.
+  by move=> kn; rewrite nth_mkseq.
+rewrite (E 0%N n0) /= /construct /= => -[<-] /=.
+rewrite !mulmxDl; congr (_ + _).
+- rewrite -den_diag_mul /den_diag; congr diag_mx; apply/matrixP => i j.
+  by rewrite !mxE (nth_map (MkMulRow None [::] [::] None [::] [::] None)) ?size_mkseq // E //= nth_vmk.
+- rewrite (@den_sl_at_tm _ _ (tm u)); last by rewrite size_cat size_mkseq addn0.
+  rewrite den_diag_Dm -[Dm _ _]Dm_tr -trmx_mul /den_sl_at mulDL; congr (_^T); apply: denSL_ext => k kn.
+  + rewrite /Pk /mrow /= (nth_map (MkMulRow None [::] [::] None [::] [::] None)) ?size_mkseq // E //= /cat2 /= cats0.
+    by rewrite rv_of_vscale /vget.
+  + by rewrite /Qk /mrow /= (nth_map (MkMulRow None [::] [::] None [::] [::] None)) ?size_mkseq // E //= /cat2 /= cats0.
+  + by rewrite /Ak /tget /= (nth_map (MkMulRow None [::] [::] None [::] [::] None)) ?size_mkseq // E.
+Qed.
+Theorem mul_upper_diag_sound n m (y : vec F) (x : vec F) (u : tri F) C : tn u = n -> 
+  qsm_mul fops (Upper x u) (Diag m y) = Some C -> den n C = den n (Upper x u) *m den n (Diag m y).
+Proof.
+case: (posnP n) => [->|n0]; last exact: mul_upper_diag_pos.
+by move=> *; apply/matrixP => -[].
+Qed.
+Lemma mul_slower_diag_pos n m (y : vec F) (l : tri F) C : (0 < n)%N -> tn l = n -> size (mrow (tp l) 0) = tm l ->
+  qsm_mul fops (SLower l) (Diag m y) = Some C -> den n C = den n (SLower l) *m den n (Diag m y).
+Proof.
+move=> n0 nl wl; rewrite /qsm_mul /deconstruct; cbv beta iota; rewrite nl.
+set rows := mkseq _ n.
+have E k : (k < n)%N -> nth (MkMulRow None [::] [::] None [::] [::] None) rows k = mul_row fops None (Some l) None (Some y) None None None None k.
+  by move=> kn; rewrite nth_mkseq.
+rewrite (E 0%N n0) /= /construct /= => -[<-] /=.
+rewrite (@den_sl_at_tm _ _ (tm l)); last by rewrite size_cat addn0; exact: wl.
+rewrite den_diag_Dm /den_sl_at mulLD; apply: denSL_ext => k kn.
++ by rewrite /Pk /mrow /= (nth_map (MkMulRow None [::] [::] None [::] [::] None)) ?size_mkseq // E //= /cat2 /= cats0.
++ rewrite /Qk /mrow /= (nth_map (MkMulRow None [::] [::] None [::] [::] None)) ?size_mkseq // E //= /cat2 /= cats0.
+  by rewrite cv_of_vscale /vget.
++ by rewrite /Ak /tget /= (nth_map (MkMulRow None [::] [::] None [::] [::] None)) ?size_mkseq // E.
+Qed.
+Theorem mul_slower_diag_sound n m (y : vec F) (l : tri F) C : tn l = n -> size (mrow (tp l) 0) = tm l ->
+  qsm_mul fops (SLower l) (Diag m y) = Some C -> den n C = den n (SLower l) *m den n (Diag m y).
+Proof.
+case: (posnP n) => [->|n0]; last exact: mul_slower_diag_pos.
+by move=> *; apply/matrixP => -[].
+Qed.
+Lemma mul_supper_diag_pos n m (y : vec F) (u : tri F) C : (0 < n)%N -> tn u = n -> 
+  qsm_mul fops (SUpper u) (Diag m y) = Some C -> den n C = den n (SUpper u) *m den n (Diag m y).
+Proof.
+move=> n0 nl ; rewrite /qsm_mul /deconstruct; cbv beta iota; rewrite nl.
+set rows := mkseq _ n.
+have E k : (k < n)%N -> nth (MkMulRow None [::] [::] None [::] [::] None) rows k = mul_row fops None None (Some u) (Some y) None None None None k.
+  by move=> kn; rewrite nth_mkseq.
+rewrite (E 0%N n0) /= /construct /= => -[<-] /=.
+rewrite (@den_sl_at_tm _ _ (tm u)); last by rewrite size_cat size_mkseq addn0.
+rewrite den_diag_Dm -[Dm _ _]Dm_tr -trmx_mul /den_sl_at mulDL; congr (_^T); apply: denSL_ext => k kn.
++ rewrite /Pk /mrow /= (nth_map (MkMulRow None [::] [::] None [::] [::] None)) ?size_mkseq // E //= /cat2 /= cats0.
+  by rewrite rv_of_vscale /vget.
++ by rewrite /Qk /mrow /= (nth_map (MkMulRow None [::] [::] None [::] [::] None)) ?size_mkseq // E //= /cat2 /= cats0.
++ by rewrite /Ak /tget /= (nth_map (MkMulRow None [::] [::] None [::] [::] None)) ?size_mkseq // E.
+Qed.
+Theorem mul_supper_diag_sound n m (y : vec F) (u : tri F) C : tn u = n -> 
+  qsm_mul fops (SUpper u) (Diag m y) = Some C -> den n C = den n (SUpper u) *m den n (Diag m y).
+Proof.
+case: (posnP n) => [->|n0]; last exact: mul_supper_diag_pos.
+by move=> *; apply/matrixP => -[].
+Qed.
+
+(* ---- the whole column "anything @ diagonal" of the literal model ---- *)
+Definition first_row_ok_l (A : qsm F) : Prop :=
+  match A with
+  | SLower l | Lower _ l | Square _ l _ | Symm _ l => size (mrow (tp l) 0) = tm l
+  | _ => True
+  end.
+Theorem mul_any_diag_sound n m (y : vec F) A C : qwfn n A -> first_row_ok_l A ->
+  qsm_mul fops A (Diag m y) = Some C -> den n C = den n A *m den n (Diag m y).
+Proof.
+case: A => [n' d|l|u|d l|d u|d l u|d l] /=.
+- by move/eqP=> -> _; rewrite qsm_mul_diag_diag => -[<-] /=; exact: den_diag_mul.
+- by move/eqP=> nl; exact: mul_slower_diag_sound.
+- by move/eqP=> nl _; exact: mul_supper_diag_sound.
+- by move/eqP=> nl; exact: mul_lower_diag_sound.
+- by move/eqP=> nl _; exact: mul_upper_diag_sound.
+- by case/andP=> /eqP nl _; exact: mul_square_diag_sound.
+- by move/eqP=> nl; exact: mul_symm_diag_sound.
+Qed.
+Theorem mul_any_diag_agrees n (y : vec F) A C C' : qwfn n A -> first_row_ok_l A ->
+  qsm_mul fops A (Diag n y) = Some C -> qsm_mul_u fops A (Diag n y) = Some C' -> den n C = den n C'.
+Proof.
+move=> wA fA H H'; rewrite (mul_any_diag_sound wA fA H).
+by rewrite (@mul_sound _ sq lt n _ _ _ wA _ H') //= eqxx.
+Qed.
 End MulDiag.
